@@ -30,7 +30,11 @@ impl<T: Sized> JoinHandle<T> {
     pub fn join(self) -> Option<T> {
         // The OS will change to futex value to 0 and then wake it when the thread finishes.
         unsafe {
+            #[cfg(feature = "verif-hooks")]
+            rusl::verif::point(300);
             futex_wait_fast(self.tsm.get_futex(), UNFINISHED);
+            #[cfg(feature = "verif-hooks")]
+            rusl::verif::point(301);
             // The thread has completed, we have exclusive access to the memory.
             // Pack it into a box, then consume the box to get the value off the heap.
             let val = self.tsm.get_value::<T>().into_inner();
@@ -46,6 +50,8 @@ impl<T: Sized> JoinHandle<T> {
 impl<T: Sized> Drop for JoinHandle<T> {
     fn drop(&mut self) {
         unsafe {
+            #[cfg(feature = "verif-hooks")]
+            rusl::verif::point(302);
             // We signal to the thread that it needs to dealloc this shared variable.
             // If it's already done, we're responsible for the cleanup.
             if self
@@ -54,6 +60,8 @@ impl<T: Sized> Drop for JoinHandle<T> {
                 .compare_exchange(false, true, Ordering::AcqRel, Ordering::Relaxed)
                 .is_err()
             {
+                #[cfg(feature = "verif-hooks")]
+                rusl::verif::point(303);
                 // The thread got its work done first, we need to wait for it to exit, signalled
                 // by the OS through the futex, then we know we have exclusive access to the memory.
                 futex_wait_fast(self.tsm.get_futex(), UNFINISHED);
@@ -281,8 +289,12 @@ where
         unsafe {
             // Run the function, if it panics, goto #[panic_handler].
             let func_ret = func();
+            #[cfg(feature = "verif-hooks")]
+            rusl::verif::point(304);
             // The caller won't try to access the value until this thread exits.
             (*tsm.value_mut()) = Some(func_ret);
+            #[cfg(feature = "verif-hooks")]
+            rusl::verif::point(305);
             // Signal that this thread is done with the value and it can be safely
             // consumed.
             // If it fails, it means the caller has dropped the JoinHandle, then we need to dealloc here.
@@ -291,12 +303,16 @@ where
                 .compare_exchange(false, true, Ordering::AcqRel, Ordering::Relaxed)
                 .is_err()
             {
+                #[cfg(feature = "verif-hooks")]
+                rusl::verif::point(306);
                 // We need to set this thread's TID_ADDRESS ptr to null, or else
                 // the kernel will try to update the value, and futex_wake on it, which will
                 // cause a segfault.
                 sc::syscall!(SET_TID_ADDRESS, 0);
                 tsm.dealloc();
             }
+            #[cfg(feature = "verif-hooks")]
+            rusl::verif::point(307);
             // Also dealloc the local storage for this thread, nobody needs that anymore
             dealloc(get_tls_ptr().cast(), Layout::new::<ThreadLocalStorage>());
         }
@@ -575,6 +591,8 @@ pub fn on_panic(info: &core::panic::PanicInfo) -> ! {
         let stack_info = tls.read();
         // The main thread does not have stack_info set
         if let Some(stack_dealloc) = stack_info.thread_stack_info() {
+            #[cfg(feature = "verif-hooks")]
+            rusl::verif::point(308);
             // Dealloc tls, we're done with it, we're panicking so just clean everything up.
             dealloc(tls.cast(), Layout::new::<ThreadLocalStorage>());
             let map_ptr = stack_dealloc.stack_addr;
@@ -585,6 +603,8 @@ pub fn on_panic(info: &core::panic::PanicInfo) -> ! {
                 .compare_exchange(false, true, Ordering::AcqRel, Ordering::Relaxed)
                 .is_err();
             if should_dealloc {
+                #[cfg(feature = "verif-hooks")]
+                rusl::verif::point(309);
                 // The caller has stopped waiting for a response from this thread.
                 // We're responsible from cleaning up the shared memory.
                 sc::syscall!(SET_TID_ADDRESS, 0);
